@@ -1290,12 +1290,12 @@ func (r *Raft) election() {
 		time.Since(r.lastContact) < r.options.electionTimeout {
 		return
 	}
-	if r.state == Follower {
-		r.becomePreCandidate()
-	}
-	if r.state == Candidate {
-		r.becomeCandidate()
-	}
+
+	// Always start over with a prevote, also when this node is still a candidate whose
+	// election was not decided within an election timeout. Incrementing the term again
+	// right away would let a node that is cut off from the cluster inflate its term and
+	// depose a healthy leader once it is reachable again.
+	r.becomePreCandidate()
 
 	r.sendRequestVoteToPeers()
 }
@@ -1386,11 +1386,12 @@ func (r *Raft) sendRequestVote(id string, address string, votes *int, prevote bo
 
 	// If this is a prevote and a majority of the cluster respond with success to this node's
 	// vote requests, become a candidate.
-	if r.hasQuorum(*votes) && r.state == PreCandidate {
-		// Signal to the election loop to start an election so that the real election
-		// does not have to wait until the election ticker goes off again.
-		r.state = Candidate
-		r.electionCond.Broadcast()
+	if prevote && r.hasQuorum(*votes) && r.state == PreCandidate {
+		// Start the real election right away so that it does not have to wait
+		// until the election ticker goes off again.
+		r.becomeCandidate()
+		r.sendRequestVoteToPeers()
+		return
 	}
 
 	// If this an election and a majority of the cluster vote for this node, become the leader.
